@@ -626,11 +626,12 @@ Section Buffered.
               match depth c1, d with
               | S _, Some h =>
                   (* inside a block self._document.clear() goes to the buffer; a forced flush may raise
-                     BufferedError out of remove(), in which case the handle is not dropped *)
+                     BufferedError out of remove(); the Job object is then half updated (the harness discards it and
+                     continues with a fresh object for the same job, which is what [jobs] records) *)
                   let '(c2, r) := cstep c1 (COp h [] OClear) in
                   match r with
                   | Ok _ => ({| core := c2; dirs := del_dir (dirs js) f; jobs := nset j (f, None) (jobs js); nexth := nexth js |}, Ok JNull)
-                  | Err e => ({| core := c2; dirs := del_dir (dirs js) f; jobs := jobs js; nexth := nexth js |}, Err e)
+                  | Err e => ({| core := c2; dirs := del_dir (dirs js) f; jobs := nset j (f, None) (jobs js); nexth := nexth js |}, Err e)
                   end
               | _, _ =>
                   (* outside blocks clear() fails with ENOENT, which remove() ignores *)
